@@ -649,7 +649,41 @@ def fam_stdlib(r, n):
     return helpers + lines
 
 
+def fam_patma(r, n):
+    """match statements: mapping patterns over dict displays with literal / non-literal / ** entries,
+    sequence patterns with stars, class patterns, or-patterns, guards, captures."""
+    lines = ["from typing import Any, Dict, List, Optional, Tuple, Union", "from typing_extensions import NotRequired, TypedDict", "from vlib.data import Color, Point, Account, Movie", ""]
+    lines += ["def pm_%d(a: str, b: str, k: int, extra: Dict[str, bytes], m: Movie, seq: List[Union[int, str]], t: Tuple[int, str, bytes], o: Optional[Point]) -> None:" % n]
+    body = []
+    for choice in r.sample(range(10), r.randint(2, 5)):
+        if choice == 0:
+            vals = r.sample(["\"one\"", "2", "3.0", "b\"four\"", "None", "[5]"], 3)
+            body += ["match {a: %s, b: %s, \"lit\": %s}:" % tuple(vals), "    case {\"lit\": v1}:", "        reveal_type(v1)", "    case {\"other\": v2, **rest}:", "        reveal_type(v2)", "        reveal_type(rest)"]
+        elif choice == 1:
+            body += ["match {\"k\": None, **extra, b: \"two\", a: %d}:" % r.randint(1, 9), "    case {\"k\": w1}:", "        reveal_type(w1)", "    case {\"z\": w2}:", "        reveal_type(w2)"]
+        elif choice == 2:
+            body += ["match m:", "    case {\"title\": tt, \"year\": yy}:", "        reveal_type(tt)", "        reveal_type(yy)", "    case {\"bogus\": bb}:", "        reveal_type(bb)"]
+        elif choice == 3:
+            body += ["match seq:", "    case [first, *middle, last]:", "        reveal_type(first)", "        reveal_type(middle)", "    case [only]:", "        reveal_type(only)", "    case []:", "        reveal_type(seq)"]
+        elif choice == 4:
+            body += ["match t:", "    case (x1, \"s\", y1):", "        reveal_type(x1)", "        reveal_type(y1)", "    case (x2, *others):", "        reveal_type(others)"]
+        elif choice == 5:
+            body += ["match o:", "    case Point(x=0, y=py):", "        reveal_type(py)", "    case Point(x=px) if px > k:", "        reveal_type(px)", "    case None:", "        reveal_type(o)", "    case _:", "        reveal_type(o)"]
+        elif choice == 6:
+            lits = r.sample(["\"r\"", "\"w\"", "\"a\"", "1", "2.5", "b\"x\"", "None", "True"], r.randint(3, 5))
+            body += ["match a:", "    case %s:" % " | ".join(lits), "        reveal_type(a)", "    case str() as s1:", "        reveal_type(s1)"]
+        elif choice == 7:
+            body += ["match {a: 1, b: \"x\", k: b\"y\"}:", "    case {1: one, **others2}:", "        reveal_type(one)", "        reveal_type(others2)"]
+        elif choice == 8:
+            body += ["match [a, k, b\"z\"]:", "    case [str() as s2, int() | float() as num, *tail]:", "        reveal_type(s2)", "        reveal_type(num)", "        reveal_type(tail)"]
+        else:
+            body += ["match (k, a):", "    case (1, \"a\") | (2, \"b\") | (3, _):", "        reveal_type(k)", "    case (kk, aa) if kk:", "        reveal_type(kk)", "        reveal_type(aa)"]
+    lines += _indent4(body) + [""]
+    return lines
+
+
 FAMILIES = {
+    "patma": fam_patma,
     "stdlib": fam_stdlib,
     "local_multi": fam_local_multi,
     "equal_literals": fam_equal_literals,
